@@ -262,6 +262,16 @@ func sortCanonRows(s string) string {
 	}
 	parts := strings.Split(s, " | ")
 	rows := parts[1:]
+	for i, r := range rows {
+		// -0 and 0 are one value (Compare): which of them a DISTINCT / MIN / MAX keeps depends on arrival order
+		cells := strings.Split(r, " ")
+		for j, c := range cells {
+			if c == "#-0" {
+				cells[j] = "#0"
+			}
+		}
+		rows[i] = strings.Join(cells, " ")
+	}
 	sort.Strings(rows)
 	return strings.Join(append([]string{parts[0]}, rows...), " | ")
 }
